@@ -173,6 +173,25 @@ def via_history(cfg, rng, variant=None, which=None):
         finally:
             lg.removeHandler(h); lg.setLevel(old)
         return q, msgs
+    if variant == 'D':
+        # variant D: built with ANOTHER number of field periods (same coefficient lists), then nfp assigned and calculate() called: everything that depends on
+        # the field period (grid, differentiation matrices, splines) has to follow
+        c0 = dict(cfg); c0['nfp'] = cfg['nfp'] + 1
+        h = WarnCatcher(); lg = logging.getLogger('qsc'); lg.addHandler(h); old = lg.level; lg.setLevel(logging.WARNING)
+        try:
+            with warnings.catch_warnings(record=True):
+                warnings.simplefilter('always')
+                with np.errstate(all='ignore'):
+                    q = qsc.Qsc(**c0)
+                    h.records.clear()
+                    q.nfp = cfg['nfp']
+                    q.calculate()
+                    if cfg.get('order') == 'r3':
+                        q.calculate_shear()
+            msgs = list(h.records)
+        finally:
+            lg.removeHandler(h); lg.setLevel(old)
+        return q, msgs
     sc = 1.0 + rnd(rng, 0.05, 0.25) * (1 if rng.random() < 0.5 else -1)
     if variant == 'C' or (variant is None and rng.random() < 0.3):
         sc = 1.0          # variant C: the SAME axis; only scalar inputs (B0, I2, p2, sigma0, sG, spsi, ...) differ at the start
@@ -390,6 +409,12 @@ CORPUS = [
     dict(rc=[1.0, 0.09], zs=[0.0, -0.09], nfp=2, etabar=0.95, order='r3', B2c=-0.7, B2s=0.4, p2=-600000.0, I2=0.3, nphi=61),
     # a very weak current and no pressure: G2 = -iota I2 ~ 1e-9 is small in absolute terms but exactly determined
     dict(rc=[1.0, 0.045], zs=[0.0, -0.045], nfp=3, etabar=-0.9, order='r2', B2c=-0.7, I2=3.0e-9, p2=0.0, nphi=31),
+    # a very small device (all lengths x 0.005): absolute guards on quantities that carry a length dimension fire here
+    dict(rc=[0.005, 0.000225], zs=[0.0, -0.000225], nfp=3, etabar=-180.0, order='r1', nphi=31),
+    # two harmonics of comparable size: R0 has two competing minima per period and neither sits at phi = 0 or pi/nfp
+    dict(rc=[1.0, 0.04, 0.03], zs=[0.0, 0.04, 0.03], nfp=2, etabar=0.9, order='r1', nphi=31),
+    # a harmonic carried ONLY by the non-symmetric blocks (rc = zs = 0 for it)
+    dict(rc=[1.0, 0.05, 0.0], zs=[0.0, 0.05, 0.0], rs=[0.0, 0.0, 0.004], zc=[0.0, 0.0, 0.003], nfp=3, etabar=1.0, order='r1', nphi=31),
     # resolved (spectral tail 1e-12) third-order object with pressure, B0 != 1, sG = -1 and a non-symmetric axis: closed forms that agree when B0 = 1 differ here
     dict(rc=[1.0, 0.06], zs=[0.0, 0.05], rs=[0.0, 0.004], zc=[0.0, 0.003], nfp=2, etabar=0.9, order='r3', B2c=0.1, B2s=0.05, I2=0.2, B0=0.8, p2=-30000.0, sG=-1, nphi=61),
     # weakly shaped axis at second order: B20 is nearly uniform (one-pass variance formulas cancel catastrophically)
@@ -419,7 +444,7 @@ def corpus_objects(orders=None, histories=True):
         hr = np.random.default_rng(12345)
         resolved = [c for c in CORPUS if c.get('nphi') == 61 and c.get('order') == 'r3' and c.get('sG') == -1][:1]       # spectral tail 1e-12: continuum identities are sharp on it
         for cfg, variant, wh in [(CORPUS[3], 'B', ('rs', 'zc')), (CORPUS[0], 'A', None), (CORPUS[2], 'C', 'B0'), (CORPUS[3], 'C', 'I2'), (CORPUS[2], 'C', 'signs'), (CORPUS[0], 'C', 'I2')] \
-                + [(c, 'C', w) for c in resolved for w in ('I2', 'B0')]:
+                + [(c, 'C', w) for c in resolved for w in ('I2', 'B0')] + [(CORPUS[0], 'D', None), (CORPUS[2], 'D', None)]:
             if orders and cfg.get('order', 'r1') not in orders:
                 continue
             try:
@@ -463,6 +488,23 @@ def toRZ_vs_coefficients(q, rng, npts=4, r=0.03):
         R1, Z1, P1 = q.to_RZ([[r, th, float(q.phi[j])]])
         R2, Z2, P2 = position_from_coefficients(q, r, th, j)
         worst = max(worst, abs(float(R1[0]) - R2) / max(abs(R2), 1e-300), abs(float(Z1[0]) - Z2) / max(abs(R2), 1e-300), abs((float(P1[0]) - P2 + np.pi) % (2 * np.pi) - np.pi))
+    return worst
+
+
+def bmag_node_error(q, r=0.05, theta=0.7):
+    """largest relative deviation of B_mag from the prescribed |B| = B0 (1 + r etabar cos t) + r^2 (B20 + B2c cos 2t + B2s sin 2t), t = theta - (iota - iotaN) varphi,
+    at a few grid nodes (where the splines interpolate their data), in both angle conventions, in and beyond the first field period"""
+    worst = 0.0
+    for j in (0, q.nphi // 3, (2 * q.nphi) // 3, q.nphi - 1):
+        for k in (0, 1):
+            phi = q.phi[j] + k * 2 * np.pi / q.nfp; vphi = q.varphi[j] + k * 2 * np.pi / q.nfp
+            tN = theta - (q.iota - q.iotaN) * vphi
+            want = q.B0 * (1 + r * q.etabar * np.cos(tN))
+            if q.order != 'r1':
+                want += r * r * (q.B20[j] + q.B2c * np.cos(2 * tN) + q.B2s * np.sin(2 * tN))
+            for bt, arg in ((False, phi), (True, vphi)):
+                got = float(q.B_mag(r, theta, arg, Boozer_toroidal=bt))
+                worst = max(worst, abs(got - want) / abs(want))
     return worst
 
 
